@@ -11,6 +11,7 @@
 #include <cstdlib>
 #include <vector>
 #include <string>
+#include <algorithm>
 using namespace adept;
 
 static unsigned long long rs = 88172645463325252ULL;
@@ -57,7 +58,7 @@ static bool perm_idx(int n) { return n % 3 != 0; }
 // ---- the cases: array statement / scalar program
 #define FORI for (int i = 0; i < n; ++i)
 #define FORJI for (int j = 0; j < m; ++j) for (int i = 0; i < n; ++i)
-static const int NCASE = 52;
+static const int NCASE = 55;
 static bool run_array(int c, Env& e) {
   aVector &X = e.X, &Y = e.Y, &Z = e.Z, &T = e.T; aMatrix &M = e.M, &N = e.N, &M2 = e.M2; adouble &s = e.s, &s2 = e.s2; double p = e.p; Vector& P = e.P; int n = e.n, m = e.m;
   switch (c) {
@@ -113,6 +114,9 @@ static bool run_array(int c, Env& e) {
   case 49: { { adouble tmp = X(0) * Y(0); } s2 = product(1.0 + 0.1 * X); } break;
   case 50: { { adouble tmp = X(0) * Y(0); } s2 = sum(X * Z); } break;
   case 51: { { adouble tmp = X(0) * Y(0); } s2 = maxval(X * Z) + minval(Y) + norm2(Z) + mean(X); } break;
+  case 52: if (m < 2) return false; s2 = sum(diag_vector(M * N, -1)); break;
+  case 53: if (n < 2) return false; s2 = sum(diag_vector(M * N, 1)); break;
+  case 54: s2 = sum(diag_vector(M * N)); break;
   default: return false;
   }
   return true;
@@ -176,6 +180,9 @@ static bool run_loop(int c, Ref& r) {
   case 51: { { adouble tmp = x[0] * y[0]; } int kx = 0, kn = 0; adouble nn = 0.0, mm = 0.0;
              FORI { if (x[i].value() * z[i].value() > x[kx].value() * z[kx].value()) kx = i; if (y[i].value() < y[kn].value()) kn = i; nn = nn + z[i] * z[i]; mm = mm + x[i]; }
              s2 = x[kx] * z[kx] + y[kn] + sqrt(nn) + mm / double(n); } break;
+  case 52: if (m < 2) return false; s2 = 0.0; for (int j = 0; j < std::min(m - 1, n); ++j) s2 = s2 + M[(j + 1) * n + j] * N[(j + 1) * n + j]; break;
+  case 53: if (n < 2) return false; s2 = 0.0; for (int j = 0; j < std::min(m, n - 1); ++j) s2 = s2 + M[j * n + j + 1] * N[j * n + j + 1]; break;
+  case 54: s2 = 0.0; for (int j = 0; j < std::min(m, n); ++j) s2 = s2 + M[j * n + j] * N[j * n + j]; break;
   default: return false;
   }
   return true;
